@@ -11,7 +11,7 @@ use std::time::Duration;
 use vcore::dbx::{self, Ctx};
 use vcore::report::*;
 
-pub const KINDS: [&str; 10] = ["close", "partial-close", "reset", "garbage", "foreign", "nack", "silence", "late", "just-in-time", "serial"];
+pub const KINDS: [&str; 11] = ["close-behind", "close", "partial-close", "reset", "garbage", "foreign", "nack", "silence", "late", "just-in-time", "serial"];
 
 /// Applies at most one fault per call: every packet of `steps` is a choice point.
 pub fn inject(steps: Vec<Step>, ctx: &mut Ctx, x: Xch, timeout_ms: u64, table: &'static vcore::layout::Table) -> Vec<Step> {
@@ -27,7 +27,7 @@ pub fn inject(steps: Vec<Step>, ctx: &mut Ctx, x: Xch, timeout_ms: u64, table: &
                 continue;
             }
         };
-        let mut alts: Vec<&str> = vec!["close", "partial-close", "reset", "garbage", "foreign", "nack", "silence", "late", "just-in-time"];
+        let mut alts: Vec<&str> = vec!["close", "partial-close", "reset", "garbage", "foreign", "nack", "silence", "late", "just-in-time", "close-behind"];
         if label == "system-info" && x == Xch::H2 {
             alts.push("wrong-serial");
             alts.push("case-serial");
@@ -43,6 +43,9 @@ pub fn inject(steps: Vec<Step>, ctx: &mut Ctx, x: Xch, timeout_ms: u64, table: &
         match kind {
             "close" => out.extend([Step::Note("fault:close".into()), Step::Close]),
             "reset" => out.extend([Step::Note("fault:reset".into()), Step::Reset]),
+            // the packet is delivered in full and the terminal hangs up right behind it: the client's
+            // acknowledgement (or next command) cannot be written any more
+            "close-behind" => out.extend([Step::Note("mode:close-eagerly".into()), Step::Note("fault:close-behind".into()), Step::Raw(bytes, label), Step::Close]),
             "partial-close" => out.extend([Step::Note("fault:partial-close".into()), Step::Raw(bytes[..(bytes.len() / 2).max(1)].to_vec(), "partial".into()), Step::Close]),
             "garbage" => {
                 let body: Vec<u8> = if bytes[..2] == [0x06, 0x0f] || bytes[..2] == [0x04, 0x0f] { vec![0x27] } else if bytes[..2] == [0x80, 0x00] { vec![] } else { vec![] };
@@ -71,7 +74,8 @@ pub fn inject(steps: Vec<Step>, ctx: &mut Ctx, x: Xch, timeout_ms: u64, table: &
             }
             "identity-refused" => {
                 // the terminal answers the identity check with an abort: a reply of the set, but no identity
-                out.extend([Step::Note("serial:refused".into()), r.abort(0x6c)]);
+                let code = [0x6cu8, 0x83, 0x00, 0xff][ctx.any(4, "refusal-code")];
+                out.extend([Step::Note("serial:refused".into()), r.abort(code)]);
                 out.extend(it);
                 return out;
             }
@@ -408,6 +412,42 @@ pub fn run(run: &RunInfo) -> Summary {
         });
         acc.max("max_depth", st.max_depth);
     }
+    // every result code as the answer to the identity check, on every connection: no code makes the
+    // connection usable
+    if !skip_for_replay(run, "c09/identity-refused/") {
+        let a = par_for(256, |code, acc| {
+            let code = code as u8;
+            let mut ctx = Ctx::new(vec![], vec![], 0);
+            let sh: Sh = Rc::new(RefCell::new(std::mem::replace(&mut ctx, Ctx::new(vec![], vec![], 0))));
+            let hook: Hook = Box::new(move |t, _ctx, req, x, _nth| {
+                if x == Xch::H2 {
+                    let mut steps = default_script(t, req, &Outcome::Abort(code), 1);
+                    steps.insert(0, Step::Note("serial:refused".into()));
+                    Some(steps)
+                } else {
+                    Some(default_script(t, req, &Outcome::Ok, 1))
+                }
+            });
+            let cfg = base_config();
+            let sc = Scenario::new(sh.clone(), hook);
+            let r = sc.new_feig(cfg.clone());
+            let mut problems = verify(&sc.sim.w.borrow().t, &cfg);
+            // reconnecting after a refused identity check is expected: drop that complaint
+            problems.retain(|p| !p.contains("although nothing had failed"));
+            // Feig::new ignores the outcome of its configuration by design; what counts is that no
+            // command ever followed a refused identity check
+            acc.count("executions", 1);
+            acc.count("transitions", 1);
+            acc.count("w_identity_refused_sweep", 1);
+            if !problems.is_empty() {
+                let log = render_log(&sc.sim.w.borrow().t);
+                acc.violation(viol(format!("c09/identity-refused/code={code:02X}"), format!("the terminal answers every identity check with abort {code:#04x}\nviolations:\n  {}\nconnection log (start):\n{}", problems.join("\n  "), log.lines().take(30).collect::<Vec<_>>().join("\n")), code as u64));
+            }
+            drop(r);
+            drop(sc);
+        });
+        acc.merge(a);
+    }
     for (c, w) in [
         ("w_second_client_foreign", "a second client of the process met a terminal with the first client's (not its own) serial number"),
         ("w_second_client_own", "a second client of the process was accepted by its own terminal on one connection"),
@@ -432,7 +472,7 @@ pub fn run(run: &RunInfo) -> Summary {
         transitions: acc.get("transitions"),
         traces_validated: execs,
         distinct_nontrivial: acc.set_len("outcomes"),
-        rule: format!("real Feig client against the simulated terminal (paused clock): 2 configurations (usual; no terminal id, other password and currency) x end-of-day completing or answered with the tolerated A0 x 7 scenarios (Feig::new, then read_card / begin / commit idle / cancel idle / commit and cancel with another transaction open / configure, then a further read_card) x every placement of <= {budget} fault(s): at every terminal-to-client packet (handshake included) one of close, close after half a packet, reset, undecodable body, foreign control field, NACK, silence, reply 1 ms after / 1 ms before the time-out, wrong serial, serial differing in case, identity check answered with an abort; and the peer closing the idle connection before any operation; plus two clients in one process (the first at three stages of progress) x 5 pairs of configured / reported serial number of the second. Oracle on the global connection log (and, after every call, that no connection that saw a fault is still held)"),
+        rule: format!("real Feig client against the simulated terminal (paused clock): 2 configurations (usual; no terminal id, other password and currency) x end-of-day completing or answered with the tolerated A0 x 7 scenarios (Feig::new, then read_card / begin / commit idle / cancel idle / commit and cancel with another transaction open / configure, then a further read_card) x every placement of <= {budget} fault(s): at every terminal-to-client packet (handshake included) one of close, close after half a packet, reset, undecodable body, foreign control field, NACK, silence, reply 1 ms after / 1 ms before the time-out, wrong serial, serial differing in case, identity check answered with an abort (four codes here, all 256 codes in a separate sweep); and the peer closing the idle connection before any operation; plus two clients in one process (the first at three stages of progress) x 5 pairs of configured / reported serial number of the second. Oracle on the global connection log (and, after every call, that no connection that saw a fault is still held)"),
         exhaustive: true,
         required_witnesses: vec![
             "a fault was followed by a fresh, vetted connection".into(),
